@@ -92,6 +92,8 @@ def _outcomes(ctx, c, f, ev, env, send_pred, names):
     for p in enumerate_paths(f):
         if p.term == "raise" or not feasible(p, ev, env):
             continue
+        if any(e.kind == "except" for e in p.events):
+            continue        # exception handling (a header field that cannot be decoded) is not a capability decision; C10.R7 covers it
         nodes = path_nodes(p)
         ab = [n for n in nodes if isinstance(n, ast.Call) and self_call(n) == "abort"]
         sends = [n for n in nodes if isinstance(n, ast.Call) and send_pred(n)]
@@ -336,6 +338,30 @@ def r3(ctx):
         ctx.check("SSM.__init__:%s" % fld, ok, where(c.module, init), "%s must come from the local device object" % fld)
 
 
+def window_agreement(ctx):
+    """the window both sides use is the negotiated one (also registered as C05.R9)"""
+    prog = ctx.prog
+    # negotiation: the receiver of the first segment answers min(proposed by sender, own)
+    for cname, mname in (("ServerSSM", "idle"), ("ClientSSM", "segmented_request")):
+        c = prog.cls(MOD, cname)
+        f = c.methods[mname]
+        ev = Evaluator(prog, c.module, c)
+        apdu = f.args.args[1].arg
+        sts = [s for t, s in attr_stores(f, "actualWindowSize") if isinstance(s, ast.Assign) and "proposedWindowSize" in norm(s.value)]
+        ok = len(sts) == 1
+        if ok:
+            k1, k2 = "%s.apduWin" % apdu, "self.ssmSAP.proposedWindowSize"
+            ok, cx = same_function(ev, sts[0].value, grid(**{k1: [1, 2, 8, 127], k2: [1, 2, 16, 127]}), lambda e: min(e[k1], e[k2]))
+        ctx.check("%s.%s:window=min" % (cname, mname), ok, where(c.module, f), "the actual window must be min(window proposed by the sender, own proposedWindowSize)")
+    # the value acknowledged back is the actual window
+    for cname in ("ClientSSM", "ServerSSM"):
+        c = prog.cls(MOD, cname)
+        for name, f in c.methods.items():
+            for call in calls_in(f):
+                if norm(call.func) == "SegmentAckPDU" and len(call.args) == 5:
+                    ctx.check("%s.%s:ack-window" % (cname, name), norm(call.args[4]) == "self.actualWindowSize", where(c.module, call), "segment-acks must carry the actual window size")
+
+
 @rule("C12.R4", "window sizes: the receiver answers min(proposed, own); a received window size is range-checked (1..127) before it is used", floor=6, engines="E5")
 def r4(ctx):
     prog = ctx.prog
@@ -360,25 +386,7 @@ def r4(ctx):
                           facts={"guards": [repr(x) for x in fa]})
     if n == 0:
         raise ShapeError("no store of a received window size found")
-    # negotiation: the receiver of the first segment answers min(proposed by sender, own)
-    for cname, mname in (("ServerSSM", "idle"), ("ClientSSM", "segmented_request")):
-        c = prog.cls(MOD, cname)
-        f = c.methods[mname]
-        ev = Evaluator(prog, c.module, c)
-        apdu = f.args.args[1].arg
-        sts = [s for t, s in attr_stores(f, "actualWindowSize") if isinstance(s, ast.Assign) and "proposedWindowSize" in norm(s.value)]
-        ok = len(sts) == 1
-        if ok:
-            k1, k2 = "%s.apduWin" % apdu, "self.ssmSAP.proposedWindowSize"
-            ok, cx = same_function(ev, sts[0].value, grid(**{k1: [1, 2, 8, 127], k2: [1, 2, 16, 127]}), lambda e: min(e[k1], e[k2]))
-        ctx.check("%s.%s:window=min" % (cname, mname), ok, where(c.module, f), "the actual window must be min(window proposed by the sender, own proposedWindowSize)")
-    # the value acknowledged back is the actual window
-    for cname in ("ClientSSM", "ServerSSM"):
-        c = prog.cls(MOD, cname)
-        for name, f in c.methods.items():
-            for call in calls_in(f):
-                if norm(call.func) == "SegmentAckPDU" and len(call.args) == 5:
-                    ctx.check("%s.%s:ack-window" % (cname, name), norm(call.args[4]) == "self.actualWindowSize", where(c.module, call), "segment-acks must carry the actual window size")
+    window_agreement(ctx)
     # own proposal is a legal window
     sm = prog.cls(MOD, "StateMachineAccessPoint")
     st = [s for t, s in attr_stores(sm.methods["__init__"], "proposedWindowSize")]
